@@ -99,6 +99,18 @@ impl Property for StoreProp {
                 ("remove-refused-while-open".into(), vec![imp(0), put(0, 0, b"k", Some(0), 5), Op::S(SOp::OpenRep { n: 0 }), Op::S(SOp::Remove { n: 0 }),
                     Op::S(SOp::ObserveAll), Op::S(SOp::CloseRep { n: 0 }), Op::S(SOp::Remove { n: 0 }), Op::S(SOp::ObserveAll)]),
             ],
+            "C18" => {
+                // a store with more than a thousand records (a rebuild that works in batches has seams)
+                let mut big = vec![Op::S(SOp::Open { file: true }), imp(0), imp(1)];
+                for i in 0..1100usize {
+                    big.push(put(i % 2, (i / 2) % 3, format!("k{:04}", i).as_bytes(), if i % 7 == 0 { None } else { Some(i % 3) }, 10 + (i % 4) as u64));
+                }
+                big.push(Op::S(SOp::DropDerived { latest: false, by_key: true, v1: false, truncate: false }));
+                big.push(Op::S(SOp::ObserveAll));
+                big.push(Op::S(SOp::DropDerived { latest: true, by_key: true, v1: false, truncate: true }));
+                big.push(Op::S(SOp::ObserveAll));
+                vec![("rebuild-of-a-store-with-1100-records".into(), big)]
+            }
             _ => vec![],
         }
     }
